@@ -43,21 +43,28 @@ pub fn loose_groups() -> Vec<(Opts, Vec<Tok>)> {
         P::Pos { ty: Ty::Os, strict: Strict::Strict, metavar: "POS".into(), help: None },
         P::PureWith(Err("never".into())),
         P::Fail("never".into()),
+        P::arg(Names::long("height"), Ty::Os),
     ];
     for first in &firsts {
         for second in &seconds {
-            for w in 0..4 {
+            for w in 0..6 {
                 let g = P::Seq(vec![first.clone(), second.clone()]);
                 let g = match w {
                     0 => g.opt(),
                     1 => g.many(),
                     2 => P::Collect(g.bx(), false),
-                    _ => g.some(),
+                    3 => g.some(),
+                    // a default for the whole group: a half-given group is not absent
+                    4 => P::Fallback(g.bx(), Val::s("DEF"), false),
+                    _ => P::FallbackWith(g.bx(), Ok(Val::s("DEF"))),
                 };
                 let mut alpha = toks(&["v", "w", "--", "-a"]);
                 match first {
                     P::ReqFlag(_) => alpha.push(Tok::s("--files")),
                     _ => alpha.extend(toks(&["--name", "-n=v", "-nw"])),
+                }
+                if matches!(second, P::Arg { .. }) {
+                    alpha.push(Tok::s("--height=v"));
                 }
                 for nb in 0..3 {
                     let sw = P::Switch(Names::short('a'));
